@@ -386,6 +386,13 @@ for pid in ('C15', 'C16', 'C03'):
     if 'thorough' in PROPS[pid]['mir']:
         PROPS[pid]['mir']['thorough'].append(mrun(HEAP, nmax=3))
     PROPS[pid]['bounds'] += ' M (heap.*): try_from_vec / try_from_boxed_slice for ALL N, source lengths L and capacities CAP >= L: Ok iff L == N, the same block re-boxed under the layout of N elements (a buffer with spare capacity is shrunk first; a pointer taken before the shrink is stale), a refused source dropped once and freed.'
+# eighth round: "the boxed constructors build arrays far larger than the thread's stack" - frames on the path of a boxed constructor
+STACK = ['stack.box_generate', 'stack.try_boxed_from_iter', 'stack.box_from_iter', 'stack.box.map']
+PROPS['C15']['mir']['quick'].append(mrun(STACK, nmax=3))
+if 'thorough' in PROPS['C15']['mir']:
+    PROPS['C15']['mir']['thorough'].append(mrun(STACK, nmax=6))
+PROPS['C15']['bounds'] += ' M (stack.*): boxed generate / try_boxed_from_iter / FromIterator for Box / boxed map (N <= 3 unrolled, size_of::<T>() any 64-bit value): no function reached on a feasible path of the operation has a local, argument or return slot that contains a GenericArray by value while N * size_of::<T>() >= 256 KiB is satisfiable (the frame of a function holds all of its locals; confirmed natively by building 0.5 - 4 MiB arrays on a thread with a 256 KiB stack).'
+PROPS['C15']['outside'] = [o for o in PROPS['C15']['outside'] if 'stack depth' not in o] + ['stack use of box_arr! (a macro: expanded in the caller, no MIR body in the crate) and frames of core / alloc callees (summaries); stack depth other than whole-array frames']
 PROPS['C15']['technique'] = PROPS['C15'].get('technique', 'bounded model checking with Kani/CBMC') + ' + symbolic execution of rustc MIR with z3 for the re-boxing conversions (Vec / Box<[T]> by contract; all N, L, CAP)'
 
 # fifth round: an overridden clone_from (C04); C05 also runs the fold family (an element destructor that panics inside the closure is a panic
